@@ -22,7 +22,7 @@
 (* the step).                                                              *)
 (***************************************************************************)
 EXTENDS Naturals, FiniteSets, Sequences, TLC, Json
-CONSTANTS Node, Topo, InitUp, MaxTog, MaxQ, BugInitEmpty, BugStaleInit, BugRelinkDrop, Gen,
+CONSTANTS Node, Topo, InitUp, MaxTog, MaxQ, BugInitEmpty, BugStaleInit, BugRelinkDrop, BugNoRepub, Gen,
           WSet    \* allowed values of w: BOOLEAN, or {TRUE} for big-step histories only
 Link == {<<a, b>> \in Node \X Node : {a, b} \in Topo /\ a # b}
 VARIABLES up, pend, sess, chan, subs, pubbed, view, q, cache, frozen, togs, relinks, waited, hist, done
@@ -73,7 +73,8 @@ Iter(n) ==
         /\ q' = q2 /\ sess' = [sess EXCEPT ![n] = s2] /\ pend' = [pend EXCEPT ![n] = {}]
         /\ cache' = [cache EXCEPT ![n] = IF new # {} /\ @ = "none" THEN (IF InitAnn(n) THEN "yes" ELSE "no") ELSE @]
         /\ chan' = [chan EXCEPT ![n] = subs[n]]
-        /\ pubbed' = [pubbed EXCEPT ![n] = subs[n]]
+        \* BugNoRepub: the un-announcing sweep forgets to clear the 'announced' mark, so a later re-subscription is never announced
+        /\ pubbed' = [pubbed EXCEPT ![n] = IF BugNoRepub /\ unann THEN TRUE ELSE subs[n]]
   /\ UNCHANGED <<up, subs, view, frozen, togs, relinks, waited, hist, done>>
 \* the session of n with m reads one announcement
 Recv(n, m) == /\ m \in sess[n] /\ q[<<m, n>>] # <<>>
